@@ -241,7 +241,13 @@ def run_whole(ctx, n_files=None, tag="w"):
         parents = c13.gen_parents(rng, len(storages), len(streams))
         parents[len(storages) + len(pre)] = 0 if rng.random() < 0.9 else parents[len(storages) + len(pre)]
         lay = c13.gen_layout(rng, ss, storages, streams)
-        links = c13.gen_links(rng, storages, streams, parents, lay["slots"])
+        # links: a legal MS-CFB tree, an unsorted sibling chain, or none at all (the reader then scans the flat
+        # directory array).  With a tree the workbook stream must be held by the ROOT storage (Cfb::find follows the
+        # hierarchy since the fix of audit finding G8): nested, the file is no workbook (both sides must say so)
+        linkmode = rng.choice(["legal", "legal", "chain", "none"])
+        links = c13.gen_links(rng, storages, streams, parents, lay["slots"], linkmode) or []
+        c["meant_legal"] = linkmode == "none" or parents[len(storages) + len(pre)] == 0
+        c["linkmode"] = linkmode
         st = ";".join(c13.hx(x) for x in storages) or "-"
         sm = lambda l: ";".join("%s:%s" % (c13.hx(x), b.hex() or "-") for x, b in l) or "-"
         c["book"], c["ss"] = book, ss
@@ -277,8 +283,20 @@ def run_whole(ctx, n_files=None, tag="w"):
         i, m = impl.get(c["id"]), model.get(c["id"])
         d = c["d"]
         case = "%s\topen\txls\t%s\t#%s" % (c["id"], c["path"], c["line"][:1800])
-        if c["legal"] != "1":
+        if (c["legal"] == "1") != c["meant_legal"]:
             ctx.disagreements.append({"function": "whole:legal(generator)", "case": case, "impl": (i or "")[:300], "model": (m or "")[:300]})
+            continue
+        ctx.count("whole:links:" + c["linkmode"])
+        if not c["meant_legal"]:
+            # the workbook stream sits inside a storage of a file with a hierarchy: not the root's Workbook / Book
+            ctx.count("whole:workbook_stream_nested(model tie only)")
+            if not same_open(c02, i, m):
+                ctx.disagreements.append({"function": "whole:xls_open_model(nested workbook stream)", "case": case,
+                                          "impl": (i or "")[:600], "model": (m or "")[:600]})
+            try:
+                os.remove(c["path"])
+            except OSError:
+                pass
             continue
         # expected, independently of Coq: names / visibility / kind in order, no defined names, the cells
         exp_meta = ",".join("%s:%s:%s" % (nm.encode("utf-8").hex(), v, k) for nm, v, k, _ in d["sheets"])
